@@ -22,6 +22,7 @@
 
 #include "ascon-aead-common.h"
 #include "core/ascon-util-snp.h"
+#include "core/ascon-verif.h"
 
 int ascon_aead_check_tag
     (unsigned char *plaintext, size_t plaintext_len,
@@ -49,34 +50,46 @@ void ascon_aead_absorb_8
     (ascon_state_t *state, const unsigned char *data,
      size_t len, uint8_t first_round, int last_permute)
 {
-    while (len >= 8) {
+    while (len >= 8)
+    ASCON_VERIF_LOOP(aead_absorb_8)
+    {
+        ASCON_VERIF_GHOST(aead_absorb_8_top)
         ascon_absorb_8(state, data, 0);
         ascon_permute(state, first_round);
         data += 8;
         len -= 8;
+        ASCON_VERIF_GHOST(aead_absorb_8_bottom)
     }
+    ASCON_VERIF_GHOST(aead_absorb_8_tail)
     if (len > 0)
         ascon_absorb_partial(state, data, 0, len);
     ascon_pad(state, len);
     if (last_permute)
         ascon_permute(state, first_round);
+    ASCON_VERIF_GHOST(aead_absorb_8_end)
 }
 
 void ascon_aead_absorb_16
     (ascon_state_t *state, const unsigned char *data,
      size_t len, uint8_t first_round, int last_permute)
 {
-    while (len >= 16) {
+    while (len >= 16)
+    ASCON_VERIF_LOOP(aead_absorb_16)
+    {
+        ASCON_VERIF_GHOST(aead_absorb_16_top)
         ascon_absorb_16(state, data, 0);
         ascon_permute(state, first_round);
         data += 16;
         len -= 16;
+        ASCON_VERIF_GHOST(aead_absorb_16_bottom)
     }
+    ASCON_VERIF_GHOST(aead_absorb_16_tail)
     if (len > 0)
         ascon_absorb_partial(state, data, 0, len);
     ascon_pad(state, len);
     if (last_permute)
         ascon_permute(state, first_round);
+    ASCON_VERIF_GHOST(aead_absorb_16_end)
 }
 
 unsigned char ascon_aead_encrypt_8
